@@ -62,6 +62,12 @@ static IP::option_identifier ip_id(unsigned code) { return IP::option_identifier
 // op: 0 add, 1 remove, 2 search; returns -1 unsupported layer, else the operation's result
 static int opt_op(int op, PDU* l, unsigned code, const bytes& d, std::string& out) {
 #define OPT_CASE(L, ID) if (dynamic_cast<L*>(l)) { if (op == 0) return opt_add<L>(l, ID, d) ? 1 : -1; if (op == 1) return opt_remove<L>(l, ID); return opt_search<L>(l, ID, out); }
+    if (PPPoE* pp = dynamic_cast<PPPoE*>(l)) {
+        // tags: add_tag / search_tag (there is no removal in the API)
+        if (op == 0) { pp->add_tag(PPPoE::tag((PPPoE::TagTypes)code, d.begin(), d.end())); return 1; }
+        if (op == 2) { const PPPoE::tag* o = pp->search_tag((PPPoE::TagTypes)code); if (!o) return 0; out = hex(o->data_ptr(), o->data_size()); return 1; }
+        return -1;
+    }
     OPT_CASE(TCP, (TCP::OptionTypes)code)
     OPT_CASE(IP, ip_id(code))
     OPT_CASE(DHCP, (DHCP::OptionTypes)code)
@@ -142,6 +148,16 @@ static void run(const Script& s) {
                 bytes d = unhex(t[3]);
                 l->add_header(IPv6::ext_header((uint8_t)num(t[2]), d.begin(), d.end()));
                 printf("P %s\n", vacc::describe(*pkt).c_str());
+            } else if ((op == "ladd" || op == "lrem") && pkt) {
+                // list-valued members with their own add/remove API: RTP CSRC identifiers and extension words
+                RTP* l = dynamic_cast<RTP*>(layer_at(pkt.get(), (int)num(t[1])));
+                if (!l) { printf("N\n"); continue; }
+                uint32_t v = (uint32_t)num(t[3]);
+                int r = 1;
+                if (t[2] == "csrc") { if (op == "ladd") l->add_csrc_id(v); else r = l->remove_csrc_id(v); }
+                else if (t[2] == "ext") { if (op == "ladd") l->add_extension_data(v); else r = l->remove_extension_data(v); }
+                else { printf("N\n"); continue; }
+                printf("P %d %s\n", r, vacc::describe(*pkt).c_str());
             } else if (op == "icmpext" && pkt) {
                 // add an RFC 4884 extension object (class 1, type 1) to an ICMP / ICMPv6 layer
                 PDU* l = layer_at(pkt.get(), (int)num(t[1]));
